@@ -1,6 +1,7 @@
 package builtin
 
 import (
+	"fmt"
 	"ti/base"
 )
 
@@ -30,7 +31,29 @@ func (d *defineBuiltinMethod) setupMethodArgs(
 
 	var argIdentifiers []string
 
-	for _, argType := range argTypes {
+	// Positional parameters of builtin methods have no names; the generated ones end up
+	// in messages ("var12 is not defined ..."), so they must not depend on how many other
+	// declarations happened to be loaded before. Derive them from the declaration itself;
+	// they stay globally unique because values are also looked up through parent classes.
+	overload := 0
+
+	var existingT *base.T
+
+	kind := "i"
+
+	switch isStatic {
+	case true:
+		kind = "c"
+		existingT = base.GetOwnClassMethodT(d.frame, d.targetClass, method, false)
+	default:
+		existingT = base.GetOwnMethodT(d.frame, d.targetClass, method, false)
+	}
+
+	if existingT != nil {
+		overload = len(existingT.Overloads) + 1
+	}
+
+	for position, argType := range argTypes {
 		switch argType.IsKeyValueType() {
 		case true:
 			argIdentifiers = append(argIdentifiers, argType.GetKey())
@@ -45,7 +68,10 @@ func (d *defineBuiltinMethod) setupMethodArgs(
 			)
 
 		default:
-			id := base.GenId()
+			id := fmt.Sprintf(
+				"arg_%s_%s_%s_%s%d_%d",
+				d.frame, d.targetClass, method, kind, overload, position,
+			)
 
 			if argType.IsBuiltinAsterisk {
 				id = "*" + id
